@@ -304,8 +304,9 @@ class Run:
                 continue
             h = sha(json.dumps(witness, sort_keys=True, default=str))[:12]
             rp = os.path.join(VERIF, "replays", f"{self.pid}-{h}.json")
-            with open(rp, "w", encoding="utf-8") as f:
-                json.dump({"property": self.pid, "summary": summary, "tier": self.tier, "seed": self.seed, "witness": witness}, f, ensure_ascii=False, indent=1, default=str)
+            with open(rp, "wb") as f:
+                # (a witness may hold a lone surrogate, e.g. half of an astral character cut by a mutation)
+                f.write(json.dumps({"property": self.pid, "summary": summary, "tier": self.tier, "seed": self.seed, "witness": witness}, ensure_ascii=False, indent=1, default=str).encode("utf-8", "backslashreplace"))
             replay_paths.append((summary, rp))
         under = [(n, g, need) for (n, g, need) in self.min_obs if g < need]
         cov = {
@@ -331,8 +332,8 @@ class Run:
             "wall_s": round(wall, 2),
             "violations": len(self.violations),
         }
-        with open(os.path.join(VERIF, "evidence", f"{self.pid}.json"), "w", encoding="utf-8") as f:
-            json.dump(ev, f, ensure_ascii=False, indent=1, default=str)
+        with open(os.path.join(VERIF, "evidence", f"{self.pid}.json"), "wb") as f:
+            f.write(json.dumps(ev, ensure_ascii=False, indent=1, default=str).encode("utf-8", "backslashreplace"))
         for finding, n in sorted(self.known_hits.items()):
             log(f"KNOWN-FINDING: property={self.pid} {self.known_text[finding]} [finding={finding}, {n} case(s) this run]")
         if self.violations:
